@@ -203,6 +203,15 @@ def run_seq_case(sh, cI, indexing, U, order, gv, tol, threads, case):
         hist = np.bincount(ind.ga[ind.ga >= 0], minlength=len(ubis))
         if list(hist) != [int(x) for x in ind.gas]:
             sh.violation("fight_over_peaks:gas-not-histogram", case, {"gas": ind.gas, "hist": hist})
+        else:
+            # read-only questions afterwards (which peaks does grain k index? how many?) leave the stored assignment as it is
+            ga_keep, d_keep = ind.ga.copy(), ind.drlv2.copy()
+            for u in ubis[:2]:
+                ind.getind(np.ascontiguousarray(u))
+                ind.score(np.ascontiguousarray(u))
+            if not (np.array_equal(ind.ga, ga_keep) and np.array_equal(ind.drlv2, d_keep)):
+                sh.violation("fight_over_peaks:stored-labels-or-errors-changed-by-getind-or-score", case,
+                             {"n_errors_changed": int((ind.drlv2 != d_keep).sum()), "n_labels_changed": int((ind.ga != ga_keep).sum())})
     # the assignment only writes labels and errors: the g-vectors and the grains' matrices come back as they went in
     if not (np.array_equal(gv, gv_in, equal_nan=True) and all(np.array_equal(U[g], u0) for g, u0 in zip(order, U_in))
             and all(np.array_equal(a_, b_) for a_, b_ in zip(ind.ubis, U_in))):
@@ -422,6 +431,14 @@ def _assignlabels_flavour(sh, gi, tier, flavour):
             fh.write("#  sc  fc  omega  Number_of_pixels  avg_intensity  sum_intensity\n")
             for k in range(len(peaks)):
                 fh.write("%.4f  %.4f  %.4f  %.0f  %.4f  %.4f\n" % (peaks[k, 0], peaks[k, 1], peaks[k, 2], 10, 100.0, 1000.0))
+        two_scans = flavour == "origin-mixed"
+        if two_scans:
+            # a second scan on the same object (every second peak of the first): one refinegrains object can hold several scans, each
+            # (grain, scan) pair has its own peak list and its own count
+            with open(os.path.join(wd, "q.flt"), "w") as fh:
+                fh.write("#  sc  fc  omega  Number_of_pixels  avg_intensity  sum_intensity\n")
+                for k in range(0, len(peaks), 2):
+                    fh.write("%.4f  %.4f  %.4f  %.0f  %.4f  %.4f\n" % (peaks[k, 0], peaks[k, 1], peaks[k, 2], 10, 100.0, 1000.0))
         sc = np.array([float("%.4f" % v) for v in peaks[:, 0]]); fc = np.array([float("%.4f" % v) for v in peaks[:, 1]])
         om = np.array([float("%.4f" % v) for v in peaks[:, 2]])
         det = {k: pars[k] for k in ("distance", "y_center", "z_center", "y_size", "z_size", "tilt_x", "tilt_y", "tilt_z", "o11", "o12", "o21", "o22")}
@@ -446,6 +463,8 @@ def _assignlabels_flavour(sh, gi, tier, flavour):
                     o = refinegrains.refinegrains(tolerance=tol, OmFloat=False)
                     o.parameterobj.set_parameters(dict(pars))            # the object's own parameter set (it carries the step sizes)
                     o.loadfiltered(os.path.join(wd, "p.flt"))
+                    if two_scans:
+                        o.loadfiltered(os.path.join(wd, "q.flt"))
                     # grain NAMES are not their positions in the list (files with a sub-set of grains, re-ordered lists): 0,1,2,3 for the
                     # first tolerance, 7,2,11,5 for the others
                     names = [0, 1, 2, 3] if tol == 0.02 else [7, 2, 11, 5]
@@ -504,6 +523,20 @@ def _assignlabels_flavour(sh, gi, tier, flavour):
                     for pos in range(4):
                         if o.grains[(names[pos], os.path.join(wd, "p.flt"))].npks != int((labels == names[pos]).sum()):
                             sh.violation("assignlabels:grain-peak-count-not-histogram", dict(case, grain=pos), {}); break
+                if ok and two_scans:
+                    qkey = os.path.join(wd, "q.flt")
+                    lq = np.asarray(o.scandata[qkey].labels).astype(int)
+                    if not np.array_equal(lq, labels[::2]):
+                        sh.violation("assignlabels[second scan on the same object]:labels-differ-from-the-same-peaks-in-the-first-scan", case,
+                                     {"n_differ": int((lq != labels[::2]).sum()) if len(lq) == len(labels[::2]) else -1})
+                    else:
+                        for pos in range(4):
+                            for key_, lab_ in ((os.path.join(wd, "p.flt"), labels), (qkey, lq)):
+                                if o.grains[(names[pos], key_)].npks != int((lab_ == names[pos]).sum()):
+                                    sh.violation("assignlabels[two scans]:grain-peak-count-not-the-histogram-of-its-own-scan", dict(case, grain=pos),
+                                                 {"scan": os.path.basename(key_), "npks": int(o.grains[(names[pos], key_)].npks),
+                                                  "labelled": int((lab_ == names[pos]).sum())})
+                                    break
                 if ok and flavour == "displaced" and tuple(order) in ((0, 1, 2, 3), (2, 0, 3, 1)) and nt == 1:
                     # history: a position refinement in between (it works with its own wide tolerance internally), then the assignment again -
                     # with the tolerance the object was given, for the grains as they are now
